@@ -3,6 +3,7 @@ package checks
 import (
 	"bytes"
 	"fmt"
+	"io"
 
 	"github.com/gregoryv/mq"
 
@@ -19,8 +20,8 @@ func init() {
 		ID:    "C18",
 		Title: "Diagnostics never disclose credentials",
 		Level: "exploration",
-		Rule: "self-composition: for every CONNECT shape (every presence subset of the 12 non-credential top-level fields x will in {absent, minimal, full}; API-built and decoded from its own frame) and every credential length in {1,2,9} (65535 on the bases), the packet is instantiated with every combination of user-name content (9 kinds) and password content (10 kinds) of that length: all-a, all-b, the client id, the literal stars, a format-verb string, the will topic, a user-property value, two-byte runes, three-byte runes (same byte length, fewer characters), bytes 00/ff. " +
-			"Dump output and String() must be identical for all 90 instances, i.e. for all 90x89 ordered pairs. Nothing else is required (dependence on emptiness and length is allowed). distinct_nontrivial = distinct (shape, length, content pair) instances rendered.",
+		Rule: "self-composition: for every CONNECT shape (every presence subset of the 12 non-credential top-level fields x will in {absent, minimal, full}; API-built and decoded from its own frame) and every credential length in {1,2,9} (3,4,5,20,32,33,64,65,255,256,4096,65535 on the bases), the packet is instantiated with 17 kinds of content of that length for the user name (reference password), for the password (reference user name) and for both alike: all-a, all-b, the client id, the literal stars, a format-verb string, the will topic, a user-property value, two-byte runes, three-byte runes (same byte length, fewer characters), bytes 00/ff, ill-formed UTF-8 (lone lead and continuation bytes, ff only, a rune cut off at the end), control and escape characters, quotes and braces, digits, blanks. " +
+			"Dump output and String() must be identical for all 49 instances. Histories: every sequence of exactly 3 (thorough 4) calls over 17 operations (user name of 4/9/40 bytes or empty, password of 4/9 bytes or nil, client id, auth method/data, user property, will, protocol version, String+Dump, WriteTo) is run twice with credential contents that differ in every byte; every rendering after every step must agree. Nothing else is required (dependence on emptiness and length is allowed). distinct_nontrivial = distinct (shape, length, content pair) instances rendered.",
 		Assumptions: []string{"only Dump and String are in scope (not %#v of the struct)", "credential contents come from 10 leak-provoking kinds; the renderer is expected to never look at content"},
 		Run:         runC18,
 		Replay:      replayC18,
@@ -64,8 +65,29 @@ func credContent(kind int, n int) []byte {
 			out = append(out, 'E')
 		}
 		return out
-	default:
+	case 9:
 		pat = []byte{0x00, 0xff}
+	case 10:
+		pat = []byte{0xc3, 0x28, 0xa9} // ill-formed UTF-8: a lead byte without its continuation, a stray continuation
+	case 11:
+		pat = []byte{0xff}
+	case 12:
+		// well formed except for a multi-byte rune cut off at the very end
+		out := bytes.Repeat([]byte("a"), n)
+		if n >= 2 {
+			out[n-2], out[n-1] = 0xe2, 0x82
+		} else {
+			out[n-1] = 0xe2
+		}
+		return out
+	case 13:
+		pat = []byte("\n\r\t\x1b[31m")
+	case 14:
+		pat = []byte("\"\\{}',")
+	case 15:
+		pat = []byte("0123456789")
+	default:
+		pat = []byte("  x ")
 	}
 	out := make([]byte, n)
 	for i := range out {
@@ -73,6 +95,8 @@ func credContent(kind int, n int) []byte {
 	}
 	return out
 }
+
+const c18Kinds = 17
 
 func c18Render(base *spec.Packet, n, uk, pk int, wire bool) (string, string) {
 	resetGlobals()
@@ -110,8 +134,13 @@ func c18Exec(t byte, vec gen.Vec, n int, wire bool) (*core.Finding, int) {
 		return nil, 0
 	}
 	count := 0
-	for uk := 0; uk < 9; uk++ {
-		for pk := 0; pk < 10; pk++ {
+	for uk := 0; uk < c18Kinds; uk++ {
+		for pk := 0; pk < c18Kinds; pk++ {
+			// every user-name content with the reference password, every
+			// password content with the reference user name, and both alike
+			if uk != 0 && pk != 0 && uk != pk {
+				continue
+			}
 			out, problem := c18Render(base, n, uk, pk, wire)
 			if problem != "" {
 				continue
@@ -210,15 +239,133 @@ func runC18(x *core.Ctx) {
 		for _, i := range top {
 			full[i] = s.Slots[i].Primary
 		}
-		do(base, 65535, "bases.len65535")
-		do(full, 65535, "bases.len65535")
+		for _, n := range []int{3, 4, 5, 20, 32, 33, 64, 65, 255, 256, 4096, 65535} {
+			do(base, n, "bases.other-lengths")
+			do(full, n, "bases.other-lengths")
+		}
 	}
+	// histories of <= 3 (thorough 4) setter calls
+	depth := 3
+	if x.Thorough() {
+		depth = 4
+	}
+	var rec func(path []int)
+	rec = func(path []int) {
+		if len(path) == depth {
+			pp := append([]int{}, path...)
+			x.Eval("histories")
+			x.R.Distinct++
+			if f := c18History(pp); f != nil {
+				x.Report(f, func() core.Case { return core.Case{Harness: "c18.history", Choices: pp} }, func() *core.Finding { return c18History(pp) })
+			}
+			return
+		}
+		for i := range c18Ops {
+			if len(path) == 0 && !x.Mine() {
+				continue
+			}
+			if x.Expired() {
+				return
+			}
+			rec(append(path, i))
+		}
+	}
+	rec(nil)
+	x.Sample("histories", 1, func() any {
+		return []string{c18Ops[0].Name, c18Ops[7].Name, c18Ops[1].Name}
+	})
 	x.Sample("lattice", 1, func() any {
 		return "CONNECT{clientid keepalive will=full} x user contents {a.., b.., client id, stars, %s%v%!, will topic, v} x password contents {.., 00 ff} at length 9"
 	})
 }
 
+// ---- histories: a CONNECT on which credentials and other fields are set
+// repeatedly and in any order; the run is made twice with credential
+// contents that differ in every byte (same lengths) and every rendering
+// along the way must agree ---------------------------------------------------
+
+type c18Op struct {
+	Name string
+	Do   func(p *mq.Connect, variant int)
+}
+
+func credVariant(n, variant int) string {
+	pats := []string{"K3p9xQ", "Zq7wLm"}
+	b := make([]byte, n)
+	for i := range b {
+		b[i] = pats[variant][i%6]
+	}
+	return string(b)
+}
+
+var c18Ops = []c18Op{
+	{"SetUsername(4 bytes)", func(p *mq.Connect, v int) { p.SetUsername(credVariant(4, v)) }},
+	{"SetUsername(9 bytes)", func(p *mq.Connect, v int) { p.SetUsername(credVariant(9, v)) }},
+	{"SetUsername(40 bytes)", func(p *mq.Connect, v int) { p.SetUsername(credVariant(40, v)) }},
+	{"SetUsername(\"\")", func(p *mq.Connect, v int) { p.SetUsername("") }},
+	{"SetPassword(4 bytes)", func(p *mq.Connect, v int) { p.SetPassword([]byte(credVariant(4, v))) }},
+	{"SetPassword(9 bytes)", func(p *mq.Connect, v int) { p.SetPassword([]byte(credVariant(9, v))) }},
+	{"SetPassword(nil)", func(p *mq.Connect, v int) { p.SetPassword(nil) }},
+	{"SetClientID(\"cid\")", func(p *mq.Connect, v int) { p.SetClientID("cid") }},
+	{"SetClientID(\"\")", func(p *mq.Connect, v int) { p.SetClientID("") }},
+	{"SetClientID(30 bytes)", func(p *mq.Connect, v int) { p.SetClientID("client-identifier-of-30-bytes..") }},
+	{"SetAuthMethod(\"m\")", func(p *mq.Connect, v int) { p.SetAuthMethod("m") }},
+	{"SetAuthData(\"d\")", func(p *mq.Connect, v int) { p.SetAuthData([]byte("d")) }},
+	{"AddUserProp(k,v)", func(p *mq.Connect, v int) { p.AddUserProp("k", "v") }},
+	{"SetWill", func(p *mq.Connect, v int) { p.SetWill(mq.Pub(1, "will/topic", "gone")) }},
+	{"SetProtocolVersion(4)", func(p *mq.Connect, v int) { p.SetProtocolVersion(4) }},
+	{"String+Dump", func(p *mq.Connect, v int) { _ = p.String(); mq.Dump(io.Discard, p) }},
+	{"WriteTo", func(p *mq.Connect, v int) { p.WriteTo(io.Discard) }},
+}
+
+func c18HistoryRun(path []int, variant int) ([]string, string) {
+	resetGlobals()
+	p := mq.NewConnect()
+	var outs []string
+	for _, oi := range path {
+		var dump bytes.Buffer
+		var s string
+		res := guarded(0, func() {
+			c18Ops[oi].Do(p, variant)
+			mq.Dump(&dump, p)
+			s = p.String()
+		})
+		if res.Panic != "" {
+			return nil, res.Panic
+		}
+		outs = append(outs, dump.String()+"\x00"+s)
+	}
+	return outs, ""
+}
+
+func c18History(path []int) *core.Finding {
+	a, pa := c18HistoryRun(path, 0)
+	b, pb := c18HistoryRun(path, 1)
+	if pa != "" || pb != "" {
+		return nil // a panic is C19's business
+	}
+	for i := range a {
+		if a[i] != b[i] {
+			which := "Dump"
+			x, y := splitNul(a[i]), splitNul(b[i])
+			if x[0] == y[0] {
+				which = "String"
+			}
+			names := ""
+			for _, oi := range path[:i+1] {
+				names += c18Ops[oi].Name + " "
+			}
+			return &core.Finding{Class: which + "-depends-on-credentials/history",
+				Detail: fmt.Sprintf("CONNECT after [%s]: %s output differs between two runs whose credentials differ only in content: %q vs %q", names, which, clip(firstDiff(a[i], b[i]), 120), clip(firstDiff(b[i], a[i]), 120))}
+		}
+	}
+	return nil
+}
+
 func replayC18(c core.Case) *core.Finding {
+	if c.Harness == "c18.history" {
+		return c18History(c.Choices)
+	}
 	raw, _ := c.Params["vec"].([]any)
 	v := make(gen.Vec, len(raw))
 	for i, e := range raw {
